@@ -57,8 +57,11 @@ package badger
 //@   note trusted: writes the CBOR encoding of the metadata under the version's key into the given transaction; the ghost variable only remembers which metadata object was written last
 
 //@ func badgerBatch.Commit
-//@   props C06
+//@   props C06 C12
 //@   requires ba != nil && ba.db != nil
+//@   precall badger/v4\.WriteBatch\)\.Set$ :: GBatSet == old(GBatSet) ==> keyId(argAs[[]byte](0)) == keyOf(rootNodeKeyFmt, rootHash)
+//@   ensures err == nil ==> GBatSet > old(GBatSet)
+//@   note (C12, C06) EVERY successful commit of a root writes the root-node key - the key that IS root existence for reads - also when the root is already listed in the version's roots metadata: an aborted multipart restore deletes the logged root-node key but leaves the metadata entry, so a restarted restore must write the key again (seed C12_h wrote it only when the metadata entry was new: after abort + restart every chunk restored, Finalize succeeded, HasRoot answered true and every read failed with "root not found")
 //@   precall badger/v4\.Txn\)\.CommitAt$ :: !old(ba.chunk) && old(ba.oldRoot.Hash) != hash.EmptyHash() ==> defined(oldRootsMeta) && oldRootsMeta != nil
 //@   precall badger/v4\.Txn\)\.CommitAt$ :: !old(ba.chunk) && old(ba.oldRoot.Hash) != hash.EmptyHash() ==> defined(oldRootsMeta) && GSavedMeta == oldRootsMeta
 //@   precall badger/v4\.Txn\)\.CommitAt$ :: !old(ba.chunk) && old(ba.oldRoot.Hash) != hash.EmptyHash() ==> defined(oldRootsMeta) && inDom(oldRootsMeta.Roots, oldRootHash) && len(oldRootsMeta.Roots[oldRootHash]) >= 1
